@@ -18,7 +18,11 @@ EXPLANATION = (
     'sentinel when it is set (LoopFlow.names -> UNRESOLVED, EvalCtx.evaluate -> None). R1: no memo site '
     'may lie on a typed call cycle through a provisional source whose cycle exists by construction '
     '(every loop gets a LoopFlow back edge), because the first query to arrive stores a table computed '
-    'from the sentinel - which queries arrive first is the query order; memo sites on cycles through '
+    'from the sentinel - which queries arrive first is the query order; a table kept per set of extents in progress is '
+    'accepted when the guard registers itself where the key is taken from (removed in a finally), and the loop shapes of E1 '
+    '(for / async for / while; compound, simple and nested-loop bodies) are rebuilt from supp\'s own Flow / LoopFlow objects: every '
+    'read position is asked alone and after every other one (same answer required), and a lone answer is compared with the region '
+    'graph; memo sites on cycles through '
     'EvalCtx.evaluate (guard against pathological input cycles only) are listed and excluded with the '
     'reason. R2: the in-progress marker of every provisional source is reset on every exit path. R3: '
     'lint, EvalCtx._evaluate and EvalCtx.declarations obtain the table of a read through '
@@ -26,7 +30,7 @@ EXPLANATION = (
     'request-specific argument. R5: the memo sites on call cycles through EvalCtx.evaluate and the readers of the '
     'partial-table memos are compared with the sets triaged on the reference tree; a new one is reported. R6: a memo written '
     'in the try/except-AttributeError idiom stores exactly the value its first call returns. Equality of '
-    'answers under concrete query orders is NOT decided.')
+    'answers under concrete query orders beyond those shapes is NOT decided.')
 TECHNIQUE = 'memo-site inventory + typed call-graph cycle analysis through re-entrancy-guarded functions + abstract interpretation of the memo decorators and of the evaluation guard'
 
 SCOPE = 'supp/scope.py'
